@@ -1,6 +1,8 @@
 """C04 - every call terminates, and an incomplete trajectory is reported truthfully."""
 import time
 
+from contracts.integrate_rt import rt_integrate  # noqa: F401
+
 LEVEL = 'other'
 EXPLANATION = ('Raise path of _integrate under contract (exc_ensures): the reason is the first violated limit in the order '
                'velocity, drop, altitude; the limits are those of this calculator\'s Config; the last row of the attached '
@@ -13,7 +15,7 @@ TEXT = ('proof of truthful range errors and in-limit rows; termination of the ou
         '(watchdog on adversarial shots), hence "other"')
 NOT_DECIDED = ['termination of the integration loop (gravity must eventually win against an uninterpreted drag and wind): '
                'bounded watchdog only', 'speed limit on interpolated rows: only >= vmin cos(theta/2) is derivable']
-EXTRA = ['bounded_watchdog']
+EXTRA = ['bounded_watchdog', 'rt_integrate']
 
 
 def bounded_watchdog(tier, seed):
